@@ -259,3 +259,34 @@ func TestReproParallelContainerLoadsShareFieldEntry(t *testing.T) {
 		r.n.FlushAll()
 	}
 }
+
+// last/first over a query bucket wider than the storage slot: every place is down-sampled on its own and the results are
+// combined in place order, the source slot is lost. Slot 95 (value 7) is written first, slot 94 (value -3) afterwards
+// (the write window restarts at 94, slot 95 moves to the compress buffer): the last value of the 30s bucket is the one
+// of slot 95 - in memory lindb answers -3, after a flush (one table stream, walked in time order) 7.
+func TestReproFirstLastBucketOverPlaces(t *testing.T) {
+	r := newRepro(t, nil)
+	r.w("a", 95, last("l", 7))
+	r.w("a", 94, last("l", -3))
+	ask := func(what string) {
+		q := &node.Query{Metric: "m", Items: []node.SelectItem{f("l")}, Start: r.t0, End: r.t0 + 3600_000 - 1000, IntervalMs: 30_000}
+		res := r.c.Query(q.SQL())
+		if res.Err != nil || res.Stuck {
+			t.Fatalf("%s: %s -> err=%v stuck=%v", what, q.SQL(), res.Err, res.Stuck)
+		}
+		got := node.Canonical(res.ResultSet, nil)
+		fmt.Printf("%s: %s\n", what, got)
+		for _, s := range res.ResultSet.Series {
+			for _, pts := range s.Fields {
+				for _, v := range pts {
+					if v != 7 {
+						t.Errorf("%s: last value of the bucket holding slots 94 (-3) and 95 (7) = %v, want 7", what, v)
+					}
+				}
+			}
+		}
+	}
+	ask("compress buffer + write window")
+	r.n.FlushAll()
+	ask("one table file")
+}
